@@ -15,7 +15,7 @@ import sys
 import tempfile
 import types
 
-REG = []  # (module name, function name, event, function)
+REG = []  # [module name, function name, event or state variable, function, filter expression or None, globals of the decorating file]
 
 
 class _Task:
@@ -31,13 +31,49 @@ class _Task:
     def wait(tasks, **_kw):
         return (set(tasks), set())
 
+    @staticmethod
+    def sleep(_secs):
+        return None
 
-def _event_trigger(ev, *_a, **_k):
+
+def _event_trigger(ev, expr=None, *_a, **_k):
+    glob = sys._getframe(1).f_globals  # pylint: disable=protected-access  # the file in which the decorator is written
+
     def deco(func):
-        REG.append((func.__module__, func.__name__, ev, func))
+        REG.append([glob["__name__"], func.__name__, ev, func, expr, glob])
         return func
 
     return deco
+
+
+def _state_trigger(expr, *_a, **_k):
+    glob = sys._getframe(1).f_globals  # pylint: disable=protected-access
+    var = expr.split("pyscript.", 1)[1].split(")", 1)[0]
+
+    def deco(func):
+        REG.append([glob["__name__"], func.__name__, var, func, expr, glob])
+        return func
+
+    return deco
+
+
+def _state_active(expr, *_a, **_k):
+    glob = sys._getframe(1).f_globals  # pylint: disable=protected-access
+
+    def deco(func):
+        func._pv_active = (expr, glob)  # pylint: disable=protected-access
+        return func
+
+    return deco
+
+
+def _guard_ok(expr, glob, local):
+    if expr is None:
+        return True
+    try:
+        return bool(eval(expr, glob, local))  # pylint: disable=eval-used
+    except Exception:  # pylint: disable=broad-except
+        return False
 
 
 CTXMAP = {}
@@ -52,6 +88,8 @@ class _Pyscript:
 
 builtins.task = _Task
 builtins.event_trigger = _event_trigger
+builtins.state_trigger = _state_trigger
+builtins.state_active = _state_active
 builtins.pyscript = _Pyscript
 
 
@@ -62,7 +100,7 @@ def dest(rel):
     return rel
 
 
-def plain(v, ctxmap):
+def plain(v, ctxmap, key=None):
     if isinstance(v, bool):
         return ["o", "bool"]
     if isinstance(v, int):
@@ -78,7 +116,10 @@ def plain(v, ctxmap):
         return ["m", c] if c is not None and sys.modules.get(v.__name__) is v else ["o", "module:" + v.__name__]
     if isinstance(v, types.FunctionType):
         c = ctxmap.get(v.__module__)
-        return ["f", c, v.__name__] if c is not None else ["o", "function"]
+        # a function made by a decorator carries the name it was bound to (pyscript: func.set_name(name); CPython users
+        # write functools.wraps): compare by the bound name
+        name = key if (key and "<locals>" in v.__qualname__) else v.__name__
+        return ["f", c, name] if c is not None else ["o", "function"]
     return ["o", type(v).__name__]
 
 
@@ -107,9 +148,19 @@ def run_case(case):
             except BaseException:  # pylint: disable=broad-except
                 # a script file whose top level raised: its context does not exist (CPython drops it from sys.modules)
                 sys.modules.pop(name, None)
-        for _ctx, fn, ev in case["fires"]:
-            for mod, name, ev2, func in list(REG):
+        for _ctx, fn, ev, opts in case["fires"]:
+            local = {}
+            if opts.get("kind") == "event":
+                local = {"val": opts["v"]}
+            if opts.get("kind") == "state":
+                setattr(_Pyscript, ev, str(opts["v"]))
+            for mod, name, ev2, func, expr, glob in list(REG):
                 if ev2 == ev and sys.modules.get(mod) is not None and getattr(sys.modules[mod], "__file__", "").startswith(tmp):
+                    if not _guard_ok(expr, glob, local):
+                        continue
+                    act = getattr(func, "_pv_active", None)
+                    if act is not None and not _guard_ok(act[0], act[1], {}):
+                        continue
                     try:
                         func(trigger_type="event", event_type=ev, context=None)
                     except Exception:  # pylint: disable=broad-except
@@ -118,7 +169,7 @@ def run_case(case):
         for name, mod in list(sys.modules.items()):
             f = getattr(mod, "__file__", None)
             if f and f.startswith(tmp + os.sep) and name in case["ctxmap"]:
-                tables[case["ctxmap"][name]] = {k: plain(v, case["ctxmap"]) for k, v in vars(mod).items() if keep_name(k)}
+                tables[case["ctxmap"][name]] = {k: plain(v, case["ctxmap"], k) for k, v in vars(mod).items() if keep_name(k)}
         return tables
     finally:
         if tmp in sys.path:
